@@ -13,8 +13,9 @@
     cycle makes on the trees Spyne builds (text '' is read back as no text).
 
     The primitive text codecs are a parameter ([leaf_codec]; C08 is about them, C01/LeafX.v
-    plugs the C08 models in).  Not modelled: polymorphism and xsi:type (C16), Attributes.default,
-    sub_name/sub_ns on members, AnyXml/AnyDict/AnyHtml/File/Enum members; the generators
+    plugs the C08 models in).  Members may carry another name / namespace on the wire
+    (Attributes.sub_name / sub_ns, looked up through the alternate-key table).  Not modelled:
+    polymorphism and xsi:type (C16), Attributes.default, AnyXml/AnyDict/AnyHtml/File/Enum members; the generators
     never produce them. *)
 From SpyneV Require Export C01.Univ Gen.XmlWire.
 
@@ -69,6 +70,28 @@ Fixpoint find_field (k : text) (fs : list field) : option field :=
   | f :: r => if text_eqb (f_name f) k then Some f else find_field k r
   end.
 
+(** _type_info_alt: the alternate keys _sanitize_type_info registers for a member with sub_name / sub_ns:
+      sub_name only            -> 'sub_name'                 (found by the local name of a child, whatever its namespace)
+      sub_ns [and sub_name]    -> '{sub_ns}sub_name-or-key'  (found by the qualified tag)
+    Keys are compared structurally (namespace, local name): names do not contain braces. *)
+Fixpoint find_by (p : field -> bool) (fs : list field) : option field :=
+  match fs with [] => None | f :: r => if p f then Some f else find_by p r end.
+Definition alt_bare (local : text) (f : field) : bool :=
+  match f_sub_ns f, f_sub_name f with None, Some n => text_eqb n local | _, _ => false end.
+Definition alt_q (ns local : text) (f : field) : bool :=
+  match f_sub_ns f with Some s => text_eqb s ns && text_eqb (wname f) local | None => false end.
+
+(** complex_from_element, child elements: flat_type_info.get(local) or _type_info_alt.get(local)
+    or _type_info_alt.get(tag).  [alts]: the members whose alternate keys the class knows. *)
+Definition lookup_member (fields alts : list field) (ns local : text) : option field :=
+  match find_field local fields with
+  | Some f => Some f
+  | None => match find_by (alt_bare local) alts with
+            | Some f => Some f
+            | None => find_by (alt_q ns local) alts
+            end
+  end.
+
 (** instance attributes: a Python object's __dict__ as an association list, newest first;
     _init_member sets every member to None *)
 Definition pystate := list (text * val).
@@ -114,6 +137,8 @@ Definition nonelike (v : val) : bool :=
 Definition of_opt (o : option pval) : val := match o with Some p => VLeaf p | None => VNone end.
 Definition is_text_leaf (l : ltype) : bool := match lt_spec l with SText => true | _ => false end.
 Definition no_kids (l : list xnode) : bool := match l with [] => true | _ => false end.
+(** the namespace a member element is written in: its sub_ns, else the namespace of the class that declares it *)
+Definition wns (dns : text) (f : field) : text := match f_sub_ns f with Some n => n | None => dns end.
 
 Section Codec.
   Variable L : leaf_codec.
@@ -137,7 +162,7 @@ Section Codec.
         match x with
         | VNone => Ok ([], [], None)
         | VLeaf pv => match f_ty f with
-                      | TLeaf l => do s <- lc_pr L l pv; Ok ([], [([], f_name f, s)], None)
+                      | TLeaf l => do s <- lc_pr L l pv; Ok ([], [([], wname f, s)], None)   (* _gen_tagname(sub_ns, sub_name or key) *)
                       | _ => Crash TypeError
                       end
         | _ => Crash TypeError
@@ -159,14 +184,15 @@ Section Codec.
         let isnone := match x with VNone => true | _ => false end in
         if xw_write_each isnone (fmax f) then        (* if subvalue is not None and mo > 1: for sv in subvalue: to_parent(sv) *)
           match x with
-          | VList xs => do es <- mapM (encf (f_ty f) dns (f_name f)) xs; Ok (es, [], None)
+          | VList xs => do es <- mapM (encf (f_ty f) (wns dns f) (wname f)) xs; Ok (es, [], None)
           | _ => Crash TypeError                     (* iterating a non-sequence *)
           end
         else if xw_write_one isnone (f_min f) then   (* elif subvalue is not None or min_occurs > 0: to_parent(subvalue) *)
-          do e <- encf (f_ty f) dns (f_name f) x; Ok ([e], [], None)
+          do e <- encf (f_ty f) (wns dns f) (wname f) x; Ok ([e], [], None)
         else Ok ([], [], None)
     end.
 
+  (** sub_ns = v.Attributes.sub_ns or cls.get_namespace() of the declaring class *)
   Definition or_text (a b : option text) : option text := match b with Some _ => b | None => a end.
 
   (** the loop over the flattened _type_info (parents first); getattr(inst, k, None).
@@ -260,38 +286,49 @@ Section Codec.
 
   (** the loop over the children of complex_from_element; [freq] is the multiset of local
       names seen (the [frequencies] defaultdict) *)
-  Fixpoint dec_kids (decf : field -> xnode -> out val) (fields : list field)
+  Fixpoint dec_kids (decf : field -> xnode -> out val) (fields alts : list field)
            (kids : list xnode) (st : pystate) (freq : list text) : out (pystate * list text) :=
     match kids with
     | [] => Ok (st, freq)
-    | XOther :: r => dec_kids decf fields r st freq                        (* comments are skipped *)
-    | (XElt _ name _ _ _ as c) :: r =>
-        let freq' := name :: freq in
-        match find_field name fields with
-        | None => dec_kids decf fields r st freq'                          (* unknown member: ignored *)
+    | XOther :: r => dec_kids decf fields alts r st freq                   (* comments are skipped *)
+    | (XElt ens name _ _ _ as c) :: r =>
+        match lookup_member fields alts ens name with
+        | None => dec_kids decf fields alts r st freq                      (* unknown member: ignored *)
         | Some f =>
+            let key := f_name f in                       (* the member's own key: attribute name and frequency counter *)
+            let freq' := key :: freq in
             match f_kind f with
             | KElem =>
                 do v <- decf f c;
                 if xw_read_multi (fmax f) then           (* if mo > 1: value.append(...) *)
-                  do l <- as_list (getattr st name);
-                  dec_kids decf fields r (setattr st name (VList (l ++ [v]))) freq'
-                else dec_kids decf fields r (setattr st name v) freq'
+                  do l <- as_list (getattr st key);
+                  dec_kids decf fields alts r (setattr st key (VList (l ++ [v]))) freq'
+                else dec_kids decf fields alts r (setattr st key v) freq'
             | _ => Crash OtherExn          (* a child element named like an XmlAttribute / XmlData member: not modelled *)
             end
         end
     end.
 
   (** the loop over elt.attrib: only XmlAttribute members are read *)
-  Fixpoint dec_atts (fields : list field) (atts : list attr) (st : pystate) (freq : list text)
+  (** flat_type_info.get(attribute key) or _type_info_alt.get(attribute key) *)
+  Definition lookup_attr (fields alts : list field) (ans an : text) : option field :=
+    match find_field (clark ans an) fields with
+    | Some f => Some f
+    | None => match ans with
+              | [] => find_by (alt_bare an) alts
+              | _ => find_by (alt_q ans an) alts
+              end
+    end.
+
+  Fixpoint dec_atts (fields alts : list field) (atts : list attr) (st : pystate) (freq : list text)
     : out (pystate * list text) :=
     match atts with
     | [] => Ok (st, freq)
     | (ans, an, av) :: r =>
-        let key := clark ans an in
-        match find_field key fields with
-        | None => dec_atts fields r st freq
+        match lookup_attr fields alts ans an with
+        | None => dec_atts fields alts r st freq
         | Some f =>
+            let key := f_name f in
             match f_kind f with
             | KAttr =>
                 match f_ty f with
@@ -299,10 +336,10 @@ Section Codec.
                     if x_soft C && negb (lc_vs L l (f_nillable f) (Some av)) then VFault
                     else do v <- lc_rd L l av;
                          if x_soft C && negb (lc_vn L l (f_nillable f) v) then VFault
-                         else dec_atts fields r (setattr st key (of_opt v)) (key :: freq)
+                         else dec_atts fields alts r (setattr st key (of_opt v)) (key :: freq)
                 | _ => Crash TypeError
                 end
-            | _ => dec_atts fields r st freq
+            | _ => dec_atts fields alts r st freq
             end
         end
     end.
@@ -330,9 +367,12 @@ Section Codec.
                   match flat_fields U c with
                   | None => Crash KeyError
                   | Some fields =>
+                      (* cls._type_info_alt: ComplexModelMeta merges the bases' tables into the class's own (generated flag) *)
+                      let alts := if xw_alt_inherited then fields
+                                  else match get_cls U c with Some cl => c_own cl | None => [] end in
                       do st0 <- dec_data fields txt [];
-                      do r1 <- dec_kids (fun f => dec k (f_ty f) (f_nillable f)) fields kids st0 [];
-                      do r2 <- dec_atts fields atts (fst r1) (snd r1);
+                      do r1 <- dec_kids (fun f => dec k (f_ty f) (f_nillable f)) fields alts kids st0 [];
+                      do r2 <- dec_atts fields alts atts (fst r1) (snd r1);
                       if x_soft C && negb (freq_ok fields (snd r2)) then VFault
                       else Ok (VObj c (map (fun f => getattr (fst r2) (f_name f)) fields))
                   end
